@@ -488,6 +488,9 @@ def run(cfg):
         # ---- population, memory
         pop, how = make_population(cfg, osp, asp, ids)
         out["cfg"]["built_by"] = how
+        if cfg.get("presteps"):                 # members that enter with non-zero step counters (a second training call, a resumed run)
+            for a, p_ in zip(pop, cfg["presteps"]):
+                a.steps = [int(p_)]
         if cfg.get("hetero"):                   # a population whose members differ in learn_step (as rl_hp mutation produces):
             for i, a in enumerate(pop):         # on-policy members then take different numbers of steps per generation
                 a.learn_step = int(cfg["learn_step"]) + (i % 2) * int(cfg["hetero"])
